@@ -30,7 +30,7 @@ def mc_cfg(max_ino, max_puts, defects=(), dump=False):
 
 
 def trace_cfg(debug=False, procs=("p1", "p2", "p3")):
-    return cfg({"Proc": tla_set(procs), "MaxIno": 64, "MaxPuts": 100000, "Defects": "{}",
+    return cfg({"Proc": tla_set(procs), "MaxIno": 64, "MaxPuts": 100000, "Defects": '{"trace"}',
                 "Debug": "TRUE" if debug else "FALSE"}, spec="TraceSpec", postcondition="Accept")
 
 
@@ -52,8 +52,8 @@ def random_schedule(rng, n):
     ops = []
     for _ in range(n):
         p = rng.choice(procs)
-        op = rng.choices(["open", "open_ro", "put", "commit", "close", "inplace", "vacuum", "doctor"],
-                         [5, 2, 5, 4, 3, 1, 1, 1])[0]
+        op = rng.choices(["open", "open_ro", "put", "commit", "close", "inplace", "vacuum", "doctor", "downgrade"],
+                         [5, 2, 5, 4, 3, 1, 1, 1, 1])[0]
         ops.append({"op": op, "p": p})
     return ops
 
@@ -132,7 +132,7 @@ def execute(scs, out, quick, jobs=8):
             li, name = (d.get("stuck_at") or 0) + 1, "no-action"
         ev = evs[li - 1] if 0 < li <= len(evs) else {}
         sig = {"engine": "lock", "kind": "impl_to_spec", "field": name, "call": ev.get("ev", "?"),
-               "res_ok": bool(ev.get("res", {}).get("ok"))}
+               "res_ok": bool(ev.get("res", {}).get("ok")), "upgrade_path": any(e.get("ev") in ("wput", "downgrade") for e in evs[:li])}
         out.diverge(sig, "schedule is not a behaviour of Mv2Lock: after step %d (%s by %s -> %s) the observation `%s` is not what any action allows (probe=%s writers=%s)"
                     % (li - 1, ev.get("ev"), ev.get("p"), ev.get("res"), name, ev.get("obs", {}).get("probe"), ev.get("obs", {}).get("writers")),
                     {"engine": "lock", "scenario": [{"op": e["ev"], "p": e["p"]} for e in evs[:li] if e.get("ev") != "reset"]})
@@ -201,6 +201,15 @@ def run(tier, out: Outcome):
         ops += [{"op": "open", "p": "p2"}, {"op": "put", "p": "p2"}, {"op": "close", "p": "p2"}, {"op": "close", "p": "p1"},
                 {"op": "close", "p": "p3"}, {"op": "open", "p": "p3"}, {"op": "close", "p": "p3"}]
         scs.append({"id": len(scs) + 1, "ops": ops})
+    # lock downgrade / upgrade: a clean writer downgrades, a reader keeps its upgrade from succeeding (times out, ~10 s),
+    # a new writer opens, the downgraded handle retries a put (must fail: at most one writer)
+    scs.append({"id": len(scs) + 1, "ops": [{"op": "open", "p": "p1"}, {"op": "put", "p": "p1"}, {"op": "commit", "p": "p1"}, {"op": "downgrade", "p": "p1"},
+                                             {"op": "open_ro", "p": "p2"}, {"op": "wput", "p": "p1"}, {"op": "close", "p": "p2"}, {"op": "open", "p": "p3"},
+                                             {"op": "wput", "p": "p1"}, {"op": "put", "p": "p3"}, {"op": "commit", "p": "p3"}, {"op": "close", "p": "p3"},
+                                             {"op": "wput", "p": "p1"}, {"op": "commit", "p": "p1"}, {"op": "close", "p": "p1"}, {"op": "open", "p": "p2"}, {"op": "close", "p": "p2"}]})
+    scs.append({"id": len(scs) + 1, "ops": [{"op": "open", "p": "p1"}, {"op": "put", "p": "p1"}, {"op": "commit", "p": "p1"}, {"op": "open_ro", "p": "p2"},
+                                             {"op": "put", "p": "p1"}, {"op": "commit", "p": "p1"}, {"op": "wput", "p": "p2"}, {"op": "close", "p": "p2"},
+                                             {"op": "close", "p": "p1"}, {"op": "open", "p": "p3"}, {"op": "close", "p": "p3"}]})
     if not quick:
         scs.append({"id": len(scs) + 1, "ops": [{"op": "open", "p": "p1"}, {"op": "put", "p": "p1"}, {"op": "commit", "p": "p1"},
                                                  {"op": "open_blocking", "p": "p2"}, {"op": "open_ro", "p": "p3", "really": True},
